@@ -154,15 +154,16 @@ def _fn_source(prog: dict, f: int, indent: str, groups: List[List[int]], with_po
     # above the postconditions
     body_call = {True: "await H.body_async", False: "H.body"}[fn["async"]]
     adef = "async def" if fn["async"] else "def"
+    xkw = ", **extra_kw" if prog.get("badkw") else ""   # programs with calls passing an unexpected keyword
     if kind == "func":
         head = []
         deco_all = decos + snap_decos + post_decos
         lines += [indent + d for d in deco_all]
-        lines.append("{}{} {}(x):".format(indent, adef, name))
+        lines.append("{}{} {}(x{}):".format(indent, adef, name, xkw))
         lines.append("{}    return {}({}, None, x)".format(indent, body_call, f))
     elif kind in ("method", "protected", "private", "dunder"):
         lines += [indent + d for d in decos + snap_decos + post_decos]
-        lines.append("{}{} {}(self, x):".format(indent, adef, name))
+        lines.append("{}{} {}(self, x{}):".format(indent, adef, name, xkw))
         lines.append("{}    return {}({}, self, x)".format(indent, body_call, f))
     elif kind == "repr":
         lines.append("{}def __repr__(self):".format(indent))
@@ -185,12 +186,12 @@ def _fn_source(prog: dict, f: int, indent: str, groups: List[List[int]], with_po
     elif kind == "static":
         lines.append(indent + "@staticmethod")
         lines += [indent + d for d in decos + snap_decos + post_decos]
-        lines.append("{}{} {}(x):".format(indent, adef, name))
+        lines.append("{}{} {}(x{}):".format(indent, adef, name, xkw))
         lines.append("{}    return {}({}, None, x)".format(indent, body_call, f))
     elif kind == "class":
         lines.append(indent + "@classmethod")
         lines += [indent + d for d in decos + snap_decos + post_decos]
-        lines.append("{}{} {}(cls, x):".format(indent, adef, name))
+        lines.append("{}{} {}(cls, x{}):".format(indent, adef, name, xkw))
         lines.append("{}    return {}({}, None, x)".format(indent, body_call, f))
     elif kind == "getter":
         lines.append(indent + "@property")
